@@ -207,7 +207,7 @@ def run(chk):
     outcomes = {'echo': [0, 0x0122, 'err'], 'store': [0, 0xB000, 0xB006, 0xA700, 0xC123, 'err'], 'get-store': [0, 0xB007, 0xA900, 'err']}
     for prov in ('echo', 'store', 'get-store'):
         for o in outcomes[prov]:
-            for mid in ids + [rnd.randrange(65536) for _ in range(2 if tier == 'quick' else 20)]:
+            for mid in ids + [rnd.randrange(65536) for _ in range(2 if tier == 'quick' else 200)]:
                 seed += 1
                 cases.append({'provider': prov, 'msgid': mid, 'pc': [1, 3, 127, 255][seed % 4], 'outcome': o, 'uid_len': [1, 2, 17, 63, 64][seed % 5],
                               'seed': seed, 'store_pc': [5, 9, 253][seed % 3], 'sub_msgid': [mid, 0, 1, 65535, 7][seed % 5]})
